@@ -167,7 +167,7 @@ fn short_forms() -> &'static Vec<(Ev, String)> {
                     a.extend(["6.022", "5"]);
                     b.extend(["(0)", "(@)", "(10^23)", "(10)", "(10^25)", "(10²⁴)"]);
                 }
-                Ev::Cpx => {}
+                Ev::Cpx => b.extend(["exp(710)", "sinh(800)", "(exp(710))", "exp(710i)"]),
             }
             if vocab::has_floor_brackets(ev) {
                 b.extend(["⌊3.5⌋", "⌈2.5⌉"]);
